@@ -32,7 +32,7 @@ ASSUMPTIONS = ['Python str restricted to ASCII (code points < 128) in every fiel
                'round-trip theorems additionally assume: the first 5\'->3\' location of a feature has no attributes of its own '
                '(open finding F39 firstloc_overrides: such lists are generated, checked by the oracle and reported as KNOWN-FINDING), '
                'no location-level seqid/type/ID, and neighbouring features do not share (ID, type, seqid)',
-               'score literals of the form [-]d+.d+ with <= 15 digits and no redundant zeros (so that repr(float(tok)) == tok)']
+               'score literals of the shapes repr() gives: [-]d+.d+ or [-]d[.d+]e-XX / e+XX, <= 15 significant digits, no redundant zeros (so that repr(float(tok)) == tok)']
 
 MODELLED_FUNCS = {'sugar/_io/main.py': ['read_fts', 'write_fts', 'detect_ext'],
                   'sugar/_io/gff.py': ['read_fts_gff', 'write_fts_gff', 'read_gff', 'write_gff'],
@@ -1126,8 +1126,9 @@ TYPES = ['CDS', 'gene', 'mRNA', 'exon', 'cDNA_match', 'five_prime_UTR', 'SO:0000
 WORDS = ['a', 'b', 'Note', 'gene', 'product', 'Dbxref', 'Parent', 'Alias', 'k e y', 'x;y', 'p=q', 'm,n', '100%', 'R&D', 'tab\there',
          'Target', 'Gap', 'locus_tag', 'Z', 'kk', 'evalue', 'Name2', 'id', 'name', 'Is_circular', 'caf\xe9']
 VCHARS = 'abcXYZ019 _.-~/' + RESERVED_CHARS + ':+()[]"\'<>#!?*@^`{}|\\$'
-SCORES = ['0.0', '1.0', '0.5', '12.25', '100.0', '-3.5', '0.001', '0.0001', '99.125', '1234567.5', '-0.25', '7.0', '0.123456789']
-SCORES_OUT = ['5', '-0.0', '1e-5', '0.50', '1e3', '.5', '00.5', '1.', '0.00001', '12345678901234567.0', 'nan', 'inf', '1_0.5']
+SCORES = ['0.0', '1.0', '0.5', '12.25', '100.0', '-3.5', '0.001', '0.0001', '99.125', '1234567.5', '-0.25', '7.0', '0.123456789',
+          '1e-05', '2.5e-07', '1e+16', '-1.5e+20', '1.234e-05', '1e+100', '-3e-10', '9.99e-05', '1e-300']
+SCORES_OUT = ['5', '-0.0', '1e-5', '0.50', '1e3', '1e-04', '1E-05', '1.0e-05', '1e+15', '1e16', '.5', '00.5', '1.', '0.00001', '12345678901234567.0', 'nan', 'inf', '1_0.5']
 
 
 def rstr(rng, maxlen=8, chars=VCHARS, minlen=0):
@@ -1714,9 +1715,9 @@ def gen_seqgff(rng):
 
 
 def gen_cases(rng, tier):
-    nobj, ntext, nmut, nxsv = (500, 350, 80, 150) if tier != 'thorough' else (8000, 6000, 1000, 1000)
-    nedit = 200 if tier != 'thorough' else 2500
-    nhist = 170 if tier != 'thorough' else 1500
+    nobj, ntext, nmut, nxsv = (500, 350, 80, 150) if tier != 'thorough' else (6000, 4500, 800, 1000)
+    nedit = 200 if tier != 'thorough' else 1500
+    nhist = 170 if tier != 'thorough' else 800
     nopt = 120 if tier != 'thorough' else 1500
     nseq = 120 if tier != 'thorough' else 1500
     nxsvr = 120 if tier != 'thorough' else 2000
@@ -1941,7 +1942,7 @@ LEVEL_TEXT = ('Machine-checked Coq theorems about an executable Gallina model of
               'written texts for generated objects, generated and mutated GFF text, edited features, call histories on shared live objects, '
               'reader/writer options, and on the written table text (byte for byte) and the records read back for TSV/CSV files through '
               'the real pandas, including tables written by other programs.')
-LEVEL_NOTE = ('Proved (47 theorems, all closed under the global context): unquote(quote s) = s for every byte string and unquote of any mixed '
+LEVEL_NOTE = ('Proved (51 theorems, all closed under the global context): unquote(quote s) = s for every byte string and unquote of any mixed '
               'raw / upper- / lower-case escape encoding; quoted fields contain no separator; decimal coordinates round-trip (columns 4/5 are '
               'start+1 and stop); key=value items (also padded with blanks) and the whole attribute column round-trip with order and list '
               'values; one line <-> (type, seqid, source, score, phase, strand, location, attributes) for every combination of present / '
@@ -1960,7 +1961,10 @@ LEVEL_NOTE = ('Proved (47 theorems, all closed under the global context): unquot
               'on the boolean domain flags evaluated for every generated case); the decision table of frompandas on ANY record, also of '
               'tables from elsewhere: C02_xrecord_errors (KeyError iff neither pair of names is there, whatever the cells), C02_len_ignored '
               '(start and stop win over a contradicting len), C02_xrecord_table (a returned record has start < stop, one of the strands '
-              '+ - . ?, coordinates from the start / stop columns or stop = start + len, start = stop - len). The real code differs from the '
+              '+ - . ?, coordinates from the start / stop columns or stop = start + len, start = stop - len), C02_strand_mapping, '
+              'C02_column_order_irrelevant (a record with distinct column names is read the same way in every column order, for ANY table), '
+              'C02_blank_lines_skipped, C02_xrecord_bridge (the column-key model of the earlier theorems, still evaluated by the history '
+              'stream, is the name model on the five names). The real code differs from the '
               'model in one corner that is kept out of the correspondence domain: a table whose only columns are len yields no records and '
               'no error, because pandas drops the rows of a frame without columns. '
               'Reader / writer options (round 7): C02_read_filt_fast and C02_read_filt (reading with filt_fast= / filt= is reading the file '
@@ -1985,5 +1989,7 @@ LEVEL_NOTE = ('Proved (47 theorems, all closed under the global context): unquot
               'Statement coverage of the modelled functions in the quick tier: 100 % except sugar/_io/tab/xsv.py lines 86-87 and 95-96 '
               '(ImportError branches, unreachable with pandas installed). Trusted: Coq kernel/vm_compute, tools/gens/c02.py, the '
               'correspondence harness, CPython str/int/float/dict/sorted, urllib quote/unquote on ASCII. Domain: ASCII fields; keys not '
-              'starting with "_" and not a public Attr method name (open finding F20); scores are literals d+.d+ that repr(float()) reproduces.')
+              'starting with "_" and not a public Attr method name (open finding F20); scores are literals of the two shapes repr() gives a float '
+              '(d+.d+, or d[.d+]e-XX / e+XX below 1e-4 and from 1e16 on; C02_canon_float_ok covers both) with at most 15 significant digits; that '
+              'repr(float(tok)) == tok for such a literal is decided by CPython on every case.')
 TECHNIQUE = 'Coq proof over a hand-written executable model + per-run model/implementation correspondence and regenerated constants'
